@@ -764,6 +764,12 @@ func (f *frame) applyContract(fs *FuncSpec, actuals []CV, res *types.Tuple, st *
 	g := f.g
 	req, ens, asg, ghosts, rename := g.clauses(fs)
 	vars := g.bindParams(fs, actuals)
+	for _, a := range actuals {
+		// objects handed to a callee are objects the quantified facts about references speak of
+		if a.So == "Int" && a.Ty != nil && isRefType(a.Ty) && len(a.S) < 200 {
+			g.addInstTerm("Ref", a.S)
+		}
+	}
 	for _, gp := range ghosts {
 		_, so := g.resolveType(gp.Sort)
 		if v, ok := g.ghostVals[gp.Name]; ok && v.So == so {
